@@ -1,5 +1,5 @@
 """C19 - Search-data containers act as an ordered set plus max-priority queues (DESIGN 5.C19)."""
-import json
+import json, os
 from pyvc.frontend import Repo
 from pyvc import verify, runner
 from contracts import search_data as csd
@@ -9,19 +9,15 @@ PID = "C19"
 F = csd.F_SD
 
 
-def build(repo, tier="quick"):
-    """returns list of deferred FuncReports for every function of search_data.py under contract"""
+def plan():
+    """the verification tasks of this check: (contract, callee contracts, loop contracts, configuration tag)"""
+    from contracts import core as cc
     depq = csd.depq_contracts()
     cq = csd.cq_contracts()
-    reps = []
-    inline = set(sc.INLINE_ACCESSORS)
-
-    def v(con, callees, loops=None, config=""):
-        reps.append(verify.verify(repo, con, csd.SCHEMA, callees, loops or {}, csd.SPEC_FUNCS, inline=inline, defer=True,
-                                  timeout_ms=60000, safety=True, config=config, prune=True))
+    tasks = []
     # CharacteristicsQueue against the ASSUMED DEPQ contract
     for c in cq:
-        v(c, depq)
+        tasks.append((c, depq, {}, ""))
     for dual in (False, True):
         cls = "SearchDataDualQueue" if dual else "SearchData"
         cfg = "dual" if dual else ""
@@ -29,23 +25,36 @@ def build(repo, tier="quick"):
         sdq = csd.sd_queue_contracts(dual)
         allc = sd + sdq
         hinted = [c for c in sd if c.name != "InsertDataItem" or getattr(c, "tag", "") == "hint"]
-        from contracts import core as cc
         base = cq + hinted + sdq + [cc.solution_init()]
         if dual:
             # calls through super() resolve to the plain container's methods: their (separately verified) contracts
             plain = csd.sd_contracts(False) + csd.sd_queue_contracts(False)
             base = base + [c for c in plain if c.name != "InsertDataItem" or getattr(c, "tag", "") == "hint"]
-        loops = {(F, cls + ".FindDataItemByOneDimensionalPoint", 0): csd.find_loop(),
-                 (F, cls + ".RefillQueue", 0): csd.refill_loop(dual),
-                 (F, "SearchData.FindDataItemByOneDimensionalPoint", 0): csd.find_loop()}
+        loops = csd.loop_specs(cls, dual)
         for c in allc:
             if dual and c.name in ("InsertFirstDataItem", "__iter__", "__next__", "FindDataItemByOneDimensionalPoint",
                                    "GetCount", "GetLastItem"):
                 continue          # inherited unchanged: verified once for the base class
             callees = [x for x in base if not (x.qual == c.qual)]
             tag = getattr(c, "tag", "")
-            v(c, callees, loops, config=(cfg + ("," if cfg and tag else "") + tag))
-    return reps
+            tasks.append((c, callees, loops, cfg + ("," if cfg and tag else "") + tag))
+    return tasks
+
+
+def build_one(i):
+    """worker entry: verification conditions of task i (regenerated from /repo's current source)"""
+    repo = Repo()
+    con, callees, loops, config = plan()[i]
+    return verify.verify(repo, con, csd.SCHEMA, callees, loops, csd.SPEC_FUNCS, inline=set(sc.INLINE_ACCESSORS), defer=True,
+                         timeout_ms=int(os.environ.get('PYVC_TIMEOUT_MS', '60000')), safety=True, config=config, prune=True)
+
+
+def build(repo=None, tier="quick"):
+    from pyvc import discharge
+    import os
+    only = os.environ.get("PYVC_ONLY")         # development aid: restrict to functions whose name contains this
+    idx = [i for i, t in enumerate(plan()) if not only or only in t[0].qual]
+    return discharge.run_tasks([("props.c19", "build_one", (i,)) for i in idx])
 
 
 def run(tier, seed):
